@@ -11,6 +11,7 @@ import asyncio  # noqa: F401
 import contextlib
 import decimal
 import json
+import locale
 import logging
 import os
 import signal
@@ -106,15 +107,17 @@ def collect(dirs):
 def main():
     job = json.load(open(sys.argv[1], encoding="utf-8"))
     out_path = sys.argv[2]
-    log = open(out_path + ".log", "w")
+    log = open(out_path + ".log", "w", encoding="utf-8", errors="backslashreplace")
     os.dup2(log.fileno(), 2)
     devnull = os.open(os.devnull, os.O_WRONLY)
     os.dup2(devnull, 1)
-    sys.stdout = open(os.devnull, "w")
+    sys.stdout = open(os.devnull, "w", encoding="utf-8", errors="replace")
     logging.disable(logging.CRITICAL)
     signal.signal(signal.SIGALRM, _alarm)
 
     import anyio
+    from chuk_mcp.protocol import mcp_pydantic_base
+    backend = "pydantic" if getattr(mcp_pydantic_base, "PYDANTIC_AVAILABLE", False) else "fallback"
     from chuk_mcp.config import load_config
     from chuk_mcp.transports.stdio import stdio_client
     from chuk_mcp.protocol.messages import send_initialize
@@ -224,7 +227,8 @@ def main():
         log.flush()
     tmp = out_path + ".tmp"
     with open(tmp, "w", encoding="utf-8") as f:
-        json.dump({"results": results, "cleared": len(cleared)}, f)
+        json.dump({"results": results, "cleared": len(cleared), "backend": backend,
+                   "encoding": locale.getpreferredencoding(False)}, f)
     os.replace(tmp, out_path)
 
 
